@@ -207,6 +207,12 @@ func (f *frame) stdCall(v *ssa.Call, name string, args []Val, st *State, reach s
 		}
 		b := e.declare("fbits", fmt.Sprintf("(_ BitVec %d)", w))
 		e.assume(reach, fmt.Sprintf("(= ((_ to_fp %d %d) %s) %s)", eb, sb, b, args[0].term))
+		if e.bitsSyms == nil {
+			e.bitsSyms = map[string]string{}
+		}
+		if _, dup := e.bitsSyms[args[0].term]; !dup {
+			e.bitsSyms[args[0].term] = b
+		}
 		f.vals[v] = Val{term: b, typ: v.Type()}
 		return true
 	case "math.Float32frombits":
